@@ -1,4 +1,5 @@
 import CatiiProofs.Walk
+import CatiiProofs.WalkGenBridge
 /-!
 # C14 — walk presents exactly the non-empty uncommon and marginal intersections
 
@@ -81,6 +82,29 @@ theorem common_never_presented (dims : List Dim) (hwf : ∀ d ∈ dims, DimWF d)
 /-- with zero dimensions nothing is delivered (the single cell comes from the corner value) -/
 theorem no_dims_no_deliveries : interactions [] = [] := rfl
 
+/-! ### the same statements about the walk REGENERATED from `ccube._walk` on every run
+
+`Catii.WalkGen.walk` (`CatiiModel/Gen/WalkGen.lean`) is what `tools/translate_walk.py` makes of the current body of
+`ccube._walk`: the sequence of callback invocations, in order.  `CatiiProofs/WalkGenBridge.lean` proves it equal to
+`interactions` for every list of dimensions, so the characterisation holds of what the source says now. -/
+
+theorem generated_walk_delivered_iff (dims : List Dim) (hwf : ∀ d ∈ dims, DimWF d) (hne : dims ≠ [])
+    (co : Co) (rows : Rows) :
+    (co, rows) ∈ WalkGen.walk dims ↔
+      co.length = dims.length ∧ (∃ c ∈ co, c ≠ none) ∧ rows ≠ [] ∧ SSorted rows ∧
+      ∀ r, r ∈ rows ↔ Sel dims co r := by
+  rw [gen_walk_is_interactions]; exact delivered_iff dims hwf hne co rows
+
+theorem generated_walk_delivered_once (dims : List Dim) (hwf : ∀ d ∈ dims, DimWF d) :
+    (WalkGen.walk dims).Pairwise (fun a b => a.1 ≠ b.1) := by
+  rw [gen_walk_is_interactions]; exact delivered_once dims hwf
+
+theorem generated_walk_common_never_presented (dims : List Dim) (hwf : ∀ d ∈ dims, DimWF d)
+    (hnc : ∀ d ∈ dims, ∀ e ∈ d.entries, e.1 ≠ d.common)
+    (co : Co) (rows : Rows) (h : (co, rows) ∈ WalkGen.walk dims) :
+    ∀ i (hi : i < dims.length), co[i]? ≠ some (some dims[i].common) := by
+  rw [gen_walk_is_interactions] at h; exact common_never_presented dims hwf hnc co rows h
+
 /-! Non-vacuity: two dimensions over 4 rows; the margin of the first crossed with a category of
 the second is delivered with the rows of that category. -/
 def exDims : List Dim := [⟨[(1, [1, 3])], 0⟩, ⟨[(2, [0, 1]), (1, [2])], 0⟩]
@@ -91,5 +115,8 @@ example : (∀ d ∈ exDims, DimWF d) := by
 example : interactions exDims =
     [([some 1, some 2], [1]), ([some 1, none], [1, 3]), ([none, some 2], [0, 1]), ([none, some 1], [2])] := by
   simp [interactions, exDims, walk, Catii.Kern.inter]
+example : WalkGen.walk exDims =
+    [([some 1, some 2], [1]), ([some 1, none], [1, 3]), ([none, some 2], [0, 1]), ([none, some 1], [2])] := by
+  rw [gen_walk_is_interactions]; simp [interactions, exDims, walk, Catii.Kern.inter]
 
 end Catii.C14
